@@ -85,6 +85,10 @@ pub struct RunOpts {
     /// writer begins and closed after its operations, just before commit; 2 = opened before the
     /// writer begins and closed right after it began
     pub reader_dance: u8,
+    /// Some(i): at the Reopen with transaction index i, while the database is closed, both
+    /// header records are re-encoded in the legacy (<= 0.10, SHA3) format by the harness
+    /// (between the markers HBEGIN / HEND when markers are on)
+    pub legacy_at: Option<usize>,
 }
 
 impl RunOpts {
@@ -104,6 +108,7 @@ impl RunOpts {
             keep_file: false,
             start_model: None,
             reader_dance: 0,
+            legacy_at: None,
         }
     }
 }
@@ -1666,6 +1671,18 @@ pub fn run_tx(
     }
 }
 
+/// Re-encodes both header records of the (closed) database file in the legacy format, in place.
+pub fn legacy_convert(path: &FsPath, ps: u64) -> Result<(), String> {
+    use std::io::{Read, Seek, SeekFrom, Write};
+    let mut f = std::fs::OpenOptions::new().read(true).write(true).open(path).map_err(|e| e.to_string())?;
+    let mut head = vec![0u8; 2 * ps as usize];
+    f.read_exact(&mut head).map_err(|e| e.to_string())?;
+    crate::golden::to_legacy(&mut head, ps)?;
+    f.seek(SeekFrom::Start(0)).map_err(|e| e.to_string())?;
+    f.write_all(&head).map_err(|e| e.to_string())?;
+    f.sync_all().map_err(|e| e.to_string())
+}
+
 pub struct Committed {
     pub stats: fsck::Stats,
 }
@@ -1808,6 +1825,15 @@ fn run_history_inner(
                     None
                 };
                 drop(db.take());
+                if opts.legacy_at == Some(ti) {
+                    if opts.markers {
+                        mark("HBEGIN");
+                    }
+                    legacy_convert(&opts.path, cfg.pagesize).map_err(|e| Failure::new("harness_panic", format!("legacy conversion: {}", e)).at(ti, None))?;
+                    if opts.markers {
+                        mark("HEND");
+                    }
+                }
                 if opts.bytes_unchanged && ti % 2 == 1 {
                     // "Setting num_pages when opening an existing database has no effect"
                     let mut other = cfg.clone();
